@@ -95,6 +95,11 @@ def boundary_pairs():
 
 @st.composite
 def name_set(draw):
+    if draw(st.integers(0, 7)) == 0:
+        # three spellings of one identifier, two of which share their *raw* form up to a character that sanitising strips
+        w = draw(st.sampled_from(["fooBar", "userName", "itemCount", "maxRetryCount"]))
+        trio = [w, re.sub(r"(?<=[a-z0-9])(?=[A-Z])", "_", w).lower(), w + draw(st.sampled_from(["$", "%", "!", "?"]))]
+        return list(draw(st.permutations(trio)))
     n = draw(st.integers(2, 6))
     boundary = draw(st.integers(0, 2)) == 0
     if boundary:
